@@ -152,7 +152,7 @@ def directed(name, quick):
 
 
 SOURCES = {
-    'C01': ('flat', 'nest', 'chan', 'deep', 'sim'),
+    'C01': ('flat', 'nest', 'chan', 'deep', 'unroll2', 'sim'),
     'C02': ('flat', 'nest', 'chan', 'deep', 'sim'),
     'C04': ('flat', 'nest', 'sim'),
     'C05': ('kinds', 'copyapplied', 'nest', 'sim'),
@@ -310,6 +310,9 @@ def offgrid(trace):
     return 'offgrid:' in txt
 
 
+UNINTERPRETABLE = []     # (trace index, TLC message): traces TLC could not evaluate at all
+
+
 def validate(traces, nchunks=14):
     """TLC role 3.  Traces are validated in parallel batches; returns (fails, stats)."""
     sc = scratch()
@@ -323,25 +326,42 @@ def validate(traces, nchunks=14):
         json.dump([traces[i] for i in ch], open(tin, 'w'))
         jobs.append((k, ch, tin, tout))
 
-    def one(job):
-        k, ch, tin, tout = job
-        r = run_tlc('CircuitTrace', 'SPECIFICATION Spec\n', env={'VERIF_IN': tin, 'VERIF_OUT': tout}, workers=1,
-                    name='CircuitTrace%d' % k, timeout=3000)
-        if not os.path.exists(tout):
-            raise common.MachineryError('trace validation wrote no verdict:\n' + common.tail(r.out, 40))
+    def run_chunk(k, ch, depth=0):
+        """Validate the traces with indices ch in one TLC run; if TLC cannot evaluate the batch, bisect it so that one
+        uninterpretable trace does not hide the verdicts on all the others."""
+        tin = os.path.join(sc, 'tr_in_%d_%d_%d.json' % (k, depth, int(time.time() * 1e6) % 10 ** 9))
+        tout = tin.replace('tr_in', 'tr_out')
+        json.dump([traces[i] for i in ch], open(tin, 'w'))
+        try:
+            r = run_tlc('CircuitTrace', 'SPECIFICATION Spec\n', env={'VERIF_IN': tin, 'VERIF_OUT': tout}, workers=1,
+                        name='CircuitTrace%d_%d' % (k, depth), timeout=3000)
+            if not os.path.exists(tout):
+                raise common.MachineryError('trace validation wrote no verdict:\n' + common.tail(r.out, 40))
+        except common.MachineryError as e:
+            if len(ch) == 1:
+                UNINTERPRETABLE.append((ch[0], str(e)[-600:]))
+                return [], 0, 0, 0
+            h = len(ch) // 2
+            a = run_chunk(k, ch[:h], depth + 1)
+            b = run_chunk(k, ch[h:], depth + 1)
+            return a[0] + b[0], a[1] + b[1], a[2] + b[2], a[3] + b[3]
         res = json.load(open(tout))
         if res['traces'] != len(ch):
             raise common.MachineryError('trace validation consumed %s of %d traces' % (res['traces'], len(ch)))
         for f in res['fails']:
             f['trace'] = ch[f['tid'] - 1]
-        return res, r
+        return res['fails'], r.distinct, r.generated, res['nobs']
+
+    def one(job):
+        k, ch, tin, tout = job
+        return run_chunk(k, ch)
     fails, states, gen_states, nobs = [], 0, 0, 0
     with cf.ThreadPoolExecutor(max_workers=nchunks) as ex:
-        for res, r in ex.map(one, jobs):
-            fails += res['fails']
-            states += r.distinct
-            gen_states += r.generated
-            nobs += res['nobs']
+        for fs, st_, gn_, nb_ in ex.map(one, jobs):
+            fails += fs
+            states += st_
+            gen_states += gn_
+            nobs += nb_
     return fails, {'states': states, 'transitions': gen_states, 'observations': nobs}
 
 
@@ -429,6 +449,7 @@ def run(pid, tier):
     good = [i for i in range(len(traces)) if i not in set(bad)]
     fails, st = validate([traces[i] for i in good])
     per_clause = {}
+    uninterp = list(UNINTERPRETABLE)
     for f in fails:
         per_clause[f['clause']] = per_clause.get(f['clause'], 0) + 1
         ti = good[f['trace']]
@@ -450,12 +471,17 @@ def run(pid, tier):
         'rule': 'programs are action sequences generated by TLC from spec/CircuitGen.tla (exhaustive for small alphabets, -simulate '
                 'for long ones), replayed on the real library; an evaluation is one recorded observation battery judged by TLC; '
                 'non-trivial = ' + RULES.get(pid, 'any'),
-        'samples': [programs[0], programs[len(programs) // 2], programs[-1]][:3],
+        'samples': [compact(programs[0]), compact(programs[len(programs) // 2]), compact(programs[-1])],
+        'events_by_kind': events_by_kind(traces), 'relations_observed': relations_observed(traces),
         'sources': [{k: s[k] for k in s if k != 'programs'} | {'used': len(s['programs'])} for s in sources],
         'clause_failures_all_properties': per_clause, 'twin_runs': twin_stats,
         'mc': {'module': 'MCCircuit', 'distinct_states': mc.distinct, 'generated': mc.generated,
                'invariants': ['WF', 'SnapOK'], 'action_properties': ['UnrollProps', 'NTimesT', 'Independence']},
     })
+    if uninterp:
+        v.notes.append('UNINTERPRETABLE traces (TLC could not evaluate them): %s' % [good[i] for i, _ in uninterp][:10])
+        if not v.failures:
+            raise common.MachineryError('TLC could not evaluate %d recorded trace(s); first: %s' % (len(uninterp), uninterp[0][1]))
     v.assumptions += ['the recorder (harness/tracer.py) projects the real objects faithfully',
                       'durations are multiples of 1/4 time unit (integer arithmetic in TLC)']
     v.finish()
@@ -516,6 +542,32 @@ def signature(f, ev, trace, prog):
         if home and home['rlink']['k'] == 'one' and home['rlink']['rt'] == 'JE':
             return 'je-block-handover'
     return None
+
+
+def events_by_kind(traces):
+    out = {}
+    for t in traces:
+        for e in t:
+            k = e['ev'] + (':' + e['what'] if e['ev'] == 'Obs' else '')
+            out[k] = out.get(k, 0) + 1
+    return out
+
+
+def relations_observed(traces):
+    """How often each relation shape was actually judged (vacuity guard: a count of 0 means the clause for it never fired)."""
+    out = {'none': 0, 'FB': 0, 'JS': 0, 'JE': 0, 'multi': 0, 'zero_duration': 0, 'blocks': 0, 'blocks_with_count': 0, 'measurements': 0}
+    for t in traces:
+        for e in t:
+            if e['ev'] == 'Obs' and 'snap' in e:
+                for o in e['snap']['leaves'].values():
+                    L = o['rlink']
+                    out[L['rt'] if L['k'] == 'one' else L['k']] = out.get(L['rt'] if L['k'] == 'one' else L['k'], 0) + 1
+                    out['zero_duration'] += o['dur_v'] == 0
+                    out['measurements'] += o['acq_c'] != -2
+                for c in e['snap']['comps'].values():
+                    out['blocks'] += 1
+                    out['blocks_with_count'] += c['nrep'] != 1
+    return out
 
 
 def finals(trace):
